@@ -82,7 +82,7 @@ PROPS["C16"] = dict(
 )
 
 PROPS["C13"] = dict(
-    modules=["Hub.Props.C13"],
+    modules=["Hub.Props.C13", "Hub.Props.IdTxn"],
     gens=["c13", "c05", "store-c05"],
     rule="(store-c05) forced schedules of two writers: the outer batch or transaction runs until it reaches one of the points tools/instr inserts into copies of StoreEntities / ExecuteTransaction / commitIDTxn (after filling the transaction, before and after the commit of the shared id transaction, after the data commit, after the counter update), there a second write — same or another dataset, sharing never-seen identifiers with the first, sometimes rejected after it has drawn identifiers — is started on a second goroutine and the first waits until it has returned or is parked on a lock; both must return and every read afterwards must be that of the two writes one after the other; (a) random sequences of namespace assertions, URI compactions (hash/slash namespaces, empty local part, colons/slashes/hashes/non-ASCII in "
          "the local part), CURIE expansions and store restarts against the real NamespaceManager, every answer and the final prefix table compared; "
@@ -94,7 +94,7 @@ PROPS["C13"] = dict(
                "mappings are permanent (ns_permanent), compacting any http(s) URI and expanding it returns the URI (curie_roundtrip, over all strings), "
                "uri<->id stays one-to-one with strictly growing ids across assertions and restarts/crashes (id_assert_wf, id_permanent). The assertion's "
                "body, its lock bracket and the split functions are re-extracted from store.go on every run; the real manager is compared with the model "
-               "on generated sequences with restarts.",
+               "on generated sequences with restarts. Identifiers under concurrency (Hub.Props.IdTxn): for every interleaving of any number of writers, rejected batches and process deaths at the granularity of the two idmux critical sections, an acknowledged batch's identifiers are durable (acked_ids_durable), the identifier table is a bijection and live writers agree on every URI (one_id_per_uri), numbers are never reused (ids_below_next); the shape of assertIDForURI/commitIDTxn, the list of functions touching the rolling transaction and its single owner per database are regenerated facts (defect D32, fixed, was a second owner).",
     level_note="Trusted: Lean kernel, factgen, badger. Concurrent asserters vs context readers: the accessor-copy fact is checked; schedules are sampled only.",
 )
 
@@ -276,7 +276,7 @@ PROPS["C20"] = dict(
 )
 
 PROPS["C05"] = dict(
-    modules=["Hub.Props.C05"],
+    modules=["Hub.Props.C05", "Hub.Props.IdTxn"],
     gens=["c05", "c05stale", "store-c05"],
     rule="(store-c05) forced schedules of two writers: the outer batch or transaction runs until it reaches one of the points tools/instr inserts into copies of StoreEntities / ExecuteTransaction / commitIDTxn (after filling the transaction, before and after the commit of the shared id transaction, after the data commit, after the counter update), there a second write — same or another dataset, sharing never-seen identifiers with the first, sometimes rejected after it has drawn identifiers — is started on a second goroutine and the first waits until it has returned or is parked on a lock; both must return and every read afterwards must be that of the two writes one after the other; (c05.stale) a forced schedule: a batch or a two-dataset transaction is started while another writer holds the dataset's write lock, that writer commits and releases, the parked "
          "writer commits after it — listing, scoped lookup (newest commit time) and the feed's recorded times must agree on the parked writer's version; child processes with 4-8 concurrent writers (single-dataset batches, some rejected; two-dataset transactions naming their datasets in both orders and minting new identifiers), "
@@ -288,7 +288,7 @@ PROPS["C05"] = dict(
                "step); the lock sequence of every hub operation kind — with transactions sorting the datasets they name — is ascending in the rank dataset-manager < dataset(name) < core < "
                "id-mutex < namespace (lockseq_ascending_*), and the unsorted transaction order is shown to admit the AB/BA deadlock (abba_deadlocks). Regenerated facts tie the lock sites "
                "(sorted loop in ExecuteTransaction, locks before commit time, deferred unlocks, leaf locks) to the source. PARTIAL: atomic visibility to concurrent readers is sampled by the "
-               "stress runs, not proved (it is badger's snapshot isolation).",
+               "stress runs, not proved (it is badger's snapshot isolation). Identifiers under concurrency (Hub.Props.IdTxn): for every interleaving of any number of writers, rejected batches and process deaths at the granularity of the two idmux critical sections, an acknowledged batch's identifiers are durable (acked_ids_durable), the identifier table is a bijection and live writers agree on every URI (one_id_per_uri), numbers are never reused (ids_below_next); the shape of assertIDForURI/commitIDTxn, the list of functions touching the rolling transaction and its single owner per database are regenerated facts (defect D32, fixed, was a second owner).",
     level_note="Trusted: Lean kernel, factgen, Go runtime, badger.",
 )
 
@@ -344,7 +344,7 @@ PROPS["C08"] = dict(
 )
 
 PROPS["C04"] = dict(
-    modules=["Hub.Props.C04"],
+    modules=["Hub.Props.C04", "Hub.Props.IdTxn"],
     gens=["store-c04", "store-c05"],
     rule=STORE_RULE + "(store-c05) forced schedules of two writers: the outer batch or transaction runs until it reaches one of the points tools/instr inserts into copies of StoreEntities / ExecuteTransaction / commitIDTxn (after filling the transaction, before and after the commit of the shared id transaction, after the data commit, after the counter update), there a second write — same or another dataset, sharing never-seen identifiers with the first, sometimes rejected after it has drawn identifiers — is started on a second goroutine and the first waits until it has returned or is parked on a lock; both must return and every read afterwards must be that of the two writes one after the other; with dataset create/delete/rename, in which about a third of the state-changing operations run in a CHILD PROCESS with one crash point armed: tools/instr inserts a point "
          "after every durable step (StoreEntitiesWithTransaction, commitIDTxn, txn.Commit, updateDataset, storeValue, moveValue, deleteValueAndStoreObject, storeEntity) of copies of "
@@ -361,7 +361,7 @@ PROPS["C04"] = dict(
                "as tools/instr finds it in the source on every run (facts_step_order, write_calls_atomic). Regenerated facts: one writable transaction per call created outside every loop, the "
                "write loop writes only to the transaction it was handed, unconditional commitIDTxn before txn.Commit, error checks after every step (facts_one_transaction). badger's Sequence "
                "as a lease automaton hands out strictly increasing numbers over any history of opens, Next calls, releases and crashes (seq_no_reuse): change positions and internal ids are "
-               "never reused. The real hub is killed at every instrumented point of generated histories and compared after restart with the model.",
+               "never reused. The real hub is killed at every instrumented point of generated histories and compared after restart with the model. Identifiers under concurrency (Hub.Props.IdTxn): for every interleaving of any number of writers, rejected batches and process deaths at the granularity of the two idmux critical sections, an acknowledged batch's identifiers are durable (acked_ids_durable), the identifier table is a bijection and live writers agree on every URI (one_id_per_uri), numbers are never reused (ids_below_next); the shape of assertIDForURI/commitIDTxn, the list of functions touching the rolling transaction and its single owner per database are regenerated facts (defect D32, fixed, was a second owner).",
     level_note="Trusted: Lean kernel, tools/instr, factgen, badger's commit atomicity and durability. The step model is abstract (ids, batches); that the key-level content of a landed batch is "
                "right is C01-C03's refinement, re-checked here by the queries after every restart.",
 )
